@@ -382,6 +382,25 @@ func (inst *Inst) hookMutexHeld() bool {
 func (s *Sim) runZombies() {
 	for iter := 0; iter < 10000; iter++ {
 		progress := false
+		s.mu.Lock()
+		var hidden []*simConn
+		for _, c := range s.conns {
+			if c.hidden && !c.dead() {
+				hidden = append(hidden, c)
+			}
+		}
+		s.mu.Unlock()
+		for _, c := range hidden {
+			if c.a.deliverAll() {
+				progress = true
+			}
+			if c.b.deliverAll() {
+				progress = true
+			}
+		}
+		if progress {
+			synctest.Wait()
+		}
 		for _, z := range s.zombies {
 			s.mu.Lock()
 			acts := z.lock.actionsLocked()
